@@ -93,14 +93,102 @@ def drive_and_judge(ctx, scs, sweep=0, realgen=0):
     return s, nlines
 
 
+# ---- sanity mutants (anti-vacuity): realistic changes of the initializer, applied to scratch copies of /repo files
+# under .work/C20/mut and compiled in with go build -overlay; /repo is never written. Each must be reported by the
+# named formulas (the D7 repair must make the D7 finding disappear and nothing else appear).
+I = "internal/initializer/"
+MUTANTS = [
+    ("regenerate-ca", I + "tls.go", [("\t\tif len(kd) != 0 && len(cd) != 0 {", "\t\tif false && len(kd) != 0 && len(cd) != 0 {")],
+     {"KeepCA", "Idempotent.Rerun"}),
+    ("regenerate-partial-server-cert", I + "tls.go",
+     [("if len(sec.Data[corev1.TLSCertKey]) != 0 || len(sec.Data[corev1.TLSPrivateKeyKey]) != 0 || len(sec.Data[SecretKeyCACert]) != 0 {",
+       "if len(sec.Data[corev1.TLSCertKey]) != 0 && len(sec.Data[corev1.TLSPrivateKeyKey]) != 0 && len(sec.Data[SecretKeyCACert]) != 0 {")],
+     {"KeepCerts"}),
+    ("server-cert-first-dns-name-only", I + "tls.go",
+     [("\t\tDNSNames:              dnsNames,\n\t\tNotBefore:             time.Now(),\n\t\tNotAfter:              time.Now().AddDate(10, 0, 0),\n\t\tIsCA:                  false,\n\t\tKeyUsage:              x509.KeyUsageDigitalSignature | x509.KeyUsageKeyEncipherment | x509.KeyUsageDataEncipherment,\n\t\tExtKeyUsage:           []x509.ExtKeyUsage{x509.ExtKeyUsageServerAuth},",
+       "\t\tDNSNames:              dnsNames[:1],\n\t\tNotBefore:             time.Now(),\n\t\tNotAfter:              time.Now().AddDate(10, 0, 0),\n\t\tIsCA:                  false,\n\t\tKeyUsage:              x509.KeyUsageDigitalSignature | x509.KeyUsageKeyEncipherment | x509.KeyUsageDataEncipherment,\n\t\tExtKeyUsage:           []x509.ExtKeyUsage{x509.ExtKeyUsageServerAuth},")],
+     {"Chain.DNSNames"}),
+    ("client-cert-signed-by-a-new-ca", I + "tls.go",
+     [("\tkeyData, certData, err := e.certificate.Generate(cert, signer)\n\tif err != nil {\n\t\treturn errors.Wrap(err, errGenerateCertificate)\n\t}\n\n\tsec.Name = nn.Name\n\tsec.Namespace = nn.Namespace\n\tif e.owner != nil {\n\t\tsec.OwnerReferences = e.owner\n\t}\n\tif sec.Data == nil {\n\t\tsec.Data = make(map[string][]byte)\n\t}\n\tsec.Data[corev1.TLSCertKey] = certData\n\tsec.Data[corev1.TLSPrivateKeyKey] = keyData\n\tsec.Data[SecretKeyCACert] = signer.certificatePEM\n\n\tif create {\n\t\terr = kube.Create(ctx, sec)\n\t} else {\n\t\terr = kube.Update(ctx, sec)\n\t}\n\treturn errors.Wrapf(err, errFmtCannotCreateOrUpdate, nn.Name)\n}\n\nfunc (e *TLSCertificateGenerator) ensureServerCertificate(",
+       "\tkeyData, certData, err := e.certificate.Generate(cert, nil)\n\tif err != nil {\n\t\treturn errors.Wrap(err, errGenerateCertificate)\n\t}\n\n\tsec.Name = nn.Name\n\tsec.Namespace = nn.Namespace\n\tif e.owner != nil {\n\t\tsec.OwnerReferences = e.owner\n\t}\n\tif sec.Data == nil {\n\t\tsec.Data = make(map[string][]byte)\n\t}\n\tsec.Data[corev1.TLSCertKey] = certData\n\tsec.Data[corev1.TLSPrivateKeyKey] = keyData\n\tsec.Data[SecretKeyCACert] = signer.certificatePEM\n\n\tif create {\n\t\terr = kube.Create(ctx, sec)\n\t} else {\n\t\terr = kube.Update(ctx, sec)\n\t}\n\treturn errors.Wrapf(err, errFmtCannotCreateOrUpdate, nn.Name)\n}\n\nfunc (e *TLSCertificateGenerator) ensureServerCertificate(")],
+     {"Chain.Verifies"}),
+    ("overwrite-storeconfig", I + "store_config.go",
+     [("resource.Ignore(kerrors.IsAlreadyExists, kube.Create(ctx, sc))", "resource.NewAPIPatchingApplicator(kube).Apply(ctx, sc)"),
+      ("const (\n\terrCreateDefaultStoreConfig", "var _ = kerrors.IsAlreadyExists\n\nconst (\n\terrCreateDefaultStoreConfig")],
+     {"Untouched"}),
+    ("lock-updated-instead-of-patched", I + "lock.go",
+     [("resource.NewAPIPatchingApplicator(kube).Apply(ctx, l)", "resource.NewAPIUpdatingApplicator(kube).Apply(ctx, l)")],
+     {"Untouched"}),
+    ("mutating-webhook-without-bundle", I + "webhook_configurations.go",
+     [("\t\tcase *admv1.MutatingWebhookConfiguration:\n\t\t\tfor i := range conf.Webhooks {\n\t\t\t\tconf.Webhooks[i].ClientConfig.CABundle = caBundle\n",
+       "\t\tcase *admv1.MutatingWebhookConfiguration:\n\t\t\tfor i := range conf.Webhooks {\n")],
+     {"Bundle.Webhook"}),
+    ("crd-bundle-only-on-create", I + "crds.go",
+     [("\t\t\tcrd.Spec.Conversion.Webhook.ClientConfig.CABundle = caBundle\n",
+       "\t\t\tif kube.Get(ctx, types.NamespacedName{Name: crd.Name}, &extv1.CustomResourceDefinition{}) != nil {\n\t\t\t\tcrd.Spec.Conversion.Webhook.ClientConfig.CABundle = caBundle\n\t\t\t}\n")],
+     {"Bundle.CRD"}),
+    ("installer-ignores-installed-packages", I + "installer.go",
+     [("\tif existing, ok := pkgMap[ref.Context().RepositoryStr()]; ok {\n\t\tobjName = existing\n\t}\n", "\t_ = pkgMap\n")],
+     {"NoDupPkg.LandsOnExisting"}),
+    ("installer-names-by-full-reference", I + "installer.go",
+     [("\tobjName := xpkg.ToDNSLabel(ref.Context().RepositoryStr())", "\tobjName := xpkg.ToDNSLabel(ref.String())")],
+     {"NoDupPkg.SameRepoTwice"}),
+    # the repair of D7 (DESIGN.md appendix B): the finding must disappear because the behaviour changed
+    ("FIX-d7-lookup-with-registry-host", I + "installer.go",
+     [("pkgMap[ref.Context().RepositoryStr()]", "pkgMap[xpkg.ParsePackageSourceFromReference(ref)]")], set()),
+]
+
+
+def selftest(ctx, scs):
+    """Runs every mutant through driver + monitor on the given scenarios; returns {mutant: {formula: count}}."""
+    saved, ctx.violations = ctx.violations, []
+    results = {}
+    try:
+        for name, path, edits, expect in MUTANTS:
+            d = os.path.join(ctx.work, "mut", name)
+            os.makedirs(d, exist_ok=True)
+            with open(os.path.join("/repo", path)) as f:
+                src = f.read()
+            for old, new in edits:
+                if src.count(old) != 1:
+                    raise vlib.Inconclusive("mutant %s no longer applies to %s (%d matches)" % (name, path, src.count(old)))
+                src = src.replace(old, new)
+            mp = os.path.join(d, os.path.basename(path))
+            with open(mp, "w") as f:
+                f.write(src)
+            ov = os.path.join(d, "overlay.json")
+            with open(ov, "w") as f:
+                json.dump({"Replace": {os.path.join("/repo", path): mp}}, f)
+            os.environ["VERIF_C20_OVERLAY"] = ov
+            ctx.violations = []
+            try:
+                s, _ = drive_and_judge(ctx, scs, sweep=2, realgen=0)
+            finally:
+                del os.environ["VERIF_C20_OVERLAY"]
+            got = {}
+            for v in ctx.violations:
+                got[v["formula"]] = got.get(v["formula"], 0) + 1
+            others = {k for k in got if not k.startswith(D7 + ".")}
+            if expect:
+                ok = expect <= others
+            else:
+                ok = not got
+            results[name] = dict(expected=sorted(expect), reported=got, detected=ok, conf_drift=s["conf_drift"])
+            vlib.log("  mutant %-40s %s  %s" % (name, "DETECTED" if ok and expect else ("CLEAN" if ok else "MISSED"), got))
+    finally:
+        ctx.violations = saved
+    return results
+
+
 def run(ctx):
     quick = ctx.quick
-    cfgs = ["MCInit_quick.cfg"] if quick else ["MCInit_thorough.cfg"]
-    budget = 3000 if quick else 10 ** 9
+    # quick: one bounded model, 3000 of its scenarios; thorough: the full value sets with one fault (all scenarios)
+    # and the quick value sets with two faults / four runs (a sample)
+    plan = [("MCInit_quick.cfg", 3000)] if quick else [("MCInit_thorough.cfg", 10 ** 9), ("MCInit_faults2.cfg", 10 ** 9)]
     scs, states, trans, emitted, consts = [], 0, 0, 0, {}
-    for i, cfg in enumerate(cfgs):
-        mc = ctx.model_check("MCInit", cfg, workers=8 if quick else 16, timeout=300 if quick else 3000)
-        got = ctx.sample_lines(mc["emitted_file"], budget // len(cfgs), mc["emitted"])
+    for i, (cfg, budget) in enumerate(plan):
+        mc = ctx.model_check("MCInit", cfg, workers=8 if quick else 16, timeout=300 if quick else 3000, sub="mc%d" % i)
+        got = ctx.sample_lines(mc["emitted_file"], budget, mc["emitted"])
         scs += [{"id": "%s-m%d-%07d" % (PID, i, n), "hist": h} for n, h in got]
         states += mc["states"]
         trans += mc["transitions"]
@@ -110,7 +198,7 @@ def run(ctx):
     d7 = ctx.model_check("MCInit", "MCInit_d7.cfg", workers=4, timeout=300, expect_violations=("NoDupPkg",), sub="mcd7")
     consts["MCInit_d7.cfg"] = dict(states=d7["states"], violated=d7["violated"])
     chosen = regression() + scs
-    s, nlines = drive_and_judge(ctx, chosen, sweep=6 if quick else 60, realgen=4 if quick else 40)
+    s, nlines = drive_and_judge(ctx, chosen, sweep=6 if quick else 60, realgen=2 if quick else 40)
     ctx.cov.update(dict(
         states=states, transitions=trans, traces_validated_against_impl=s["traces"], samples=s["samples"][:2],
         model_runs=consts, scenarios_emitted=emitted, scenarios_replayed=s["scenarios"], initializer_runs=s["runs"],
@@ -124,6 +212,12 @@ def run(ctx):
              "a model 'fail' is realised as error / conflict / crash-before (rotating); sweep = every real call index of "
              "run 1 x {fail, crashAfter} + 2 fault-free reruns; a few scenarios run with the untouched RSA generator",
     ))
+    if os.environ.get("VERIF_C20_SELFTEST"):
+        st = selftest(ctx, regression() + ctx.sample(scs, 1500))
+        ctx.cov["selftest_mutants"] = st
+        missed = [k for k, v in st.items() if not v["detected"]]
+        if missed:
+            raise vlib.Inconclusive("selftest: mutants not detected: %s" % missed)
     ctx.assumptions += [
         "simapi models the API server rules listed in spec/KubeAPI.tla (merge patch, status subresource, AlreadyExists)",
         "RSA keys of generated certificates come from a pre-generated pool through the CertificateGenerator seam of "
